@@ -502,6 +502,9 @@ def c_table(tu, entry):
 # ---------------------------------------------------------------------------
 # Python
 
+WIRING_FAULTS = []
+
+
 def py_value_wiring():
     """How _module_builder wires MERGE / MERGE_WEIGHT / MERGE_DEFAULT for each
     numeric value datatype: {code: {"MERGE": FunctionDef, "MERGE_WEIGHT":
@@ -522,8 +525,18 @@ def py_value_wiring():
     if kw is None or not all(k in kw for k in ("MERGE", "MERGE_WEIGHT", "MERGE_DEFAULT")):
         raise AnalysisError("unrecognised idiom: class construction in _create_classes")
     vparam = [a.arg for a in cc.args.args][2]
+    kparam = [a.arg for a in cc.args.args][1]
+    del WIRING_FAULTS[:]
 
     def resolve(expr, code):
+        if isinstance(expr, ast.Attribute) and isinstance(expr.value, ast.Name) \
+                and expr.value.id == kparam:
+            # wired to the *key* datatype: a finding, then analysed as written
+            # for the value datatype so that the tables can still be built
+            what = "%s taken from the key datatype (%s)" % (expr.attr, pyfront.unparse(expr))
+            if what not in WIRING_FAULTS:
+                WIRING_FAULTS.append(what)
+            expr = ast.Attribute(value=ast.Name(id=vparam, ctx=ast.Load()), attr=expr.attr, ctx=ast.Load())
         if isinstance(expr, ast.Name):
             fn = pyfront.functions(base).get(expr.id)
             if fn is None:
